@@ -626,7 +626,7 @@ func checkDispatchAgree(p *an.Prog, r *an.Run, a *authCtx) {
 				rel = rel.Swap()
 				lx, lok = an.LenOf(rel.L)
 			}
-			if !lok || lx != ssa.Value(pub) {
+			if !lok || rel.Arg(lx) != ssa.Value(pub) {
 				continue
 			}
 			k, ok := an.ConstInt(rel.R)
